@@ -164,6 +164,13 @@ func runB(param json.RawMessage, ctx *explore.Ctx, viols *[]xrun.Viol) string {
 						}
 					}
 				}
+				// every transaction also creates a DBI of its own
+				nd := fmt.Sprintf("new%d", g)
+				if c.Native {
+					inst.NativePut(txn, nd, []byte("nk"), uint64(1000+g), false, []byte("nv"))
+				} else {
+					inst.PlainPut(txn, nd, 0, []byte("nk"), []byte("nv"))
+				}
 				// a key that exists only in some generations
 				k := []byte(fmt.Sprintf("only%d", g%2))
 				if c.Native {
@@ -191,8 +198,36 @@ func runB(param json.RawMessage, ctx *explore.Ctx, viols *[]xrun.Viol) string {
 			panic(err)
 		}
 	}
+	// a second database synced by the same process (one Syncer per configured LMDB): its dump may run
+	// between the dump and the upload of the first
+	z := inst.New("z", world.NewBucket(), inst.Opt{Native: c.Native})
+	defer z.Destroy()
+	z.AppTxn(func(txn *lmdb.Txn) error {
+		if c.Native {
+			inst.NativePut(txn, "zd", []byte("zk"), 5, false, []byte("zv"))
+		} else {
+			inst.PlainPut(txn, "zd", 0, []byte("zk"), []byte("zv"))
+		}
+		return nil
+	})
 	commits := 0
+	others := 0
+	inOther := false
 	verifhook.SetYield(func(point, name string) {
+		if inOther {
+			return
+		}
+		if point == "send.beforeStore" && others == 0 {
+			if ctx.Choose([]explore.Option{{Label: "continue@" + point}, {Label: "other-database-dumps@" + point, Cost: 1}}) == 1 {
+				others++
+				inOther = true
+				_, err := z.Send()
+				inOther = false
+				if err != nil {
+					add("send-error-other-database", err.Error())
+				}
+			}
+		}
 		switch point {
 		case "send.beforeTxn", "send.afterTxn", "readdbi.entry", "send.beforeStore":
 		default:
@@ -255,6 +290,16 @@ func runB(param json.RawMessage, ctx *explore.Ctx, viols *[]xrun.Viol) string {
 		}
 		if len(gens) != 1 {
 			add("snapshot-mixes-transactions:"+mode, fmt.Sprintf("values of %d different application transactions in one snapshot:\n%s", len(gens), got))
+		} else {
+			// ... and complete: the DBI created by that transaction (and by every earlier one) is in it
+			for gh := range gens {
+				g := int(gh[len(gh)-1] - '0')
+				for h := 1; h <= g; h++ {
+					if !strings.Contains(got, fmt.Sprintf("[new%d ", h)) {
+						add("snapshot-lacks-dbi-of-its-transaction:"+mode, fmt.Sprintf("snapshot has the values of application transaction %d but not the DBI new%d created by transaction %d:\n%s", g, h, h, got))
+					}
+				}
+			}
 		}
 	}
 	return fmt.Sprintf("commits=%d", commits)
